@@ -1,13 +1,23 @@
 """A user module for the `modules=` engine option (C17): registers a resolver for the schema name it is baked for
-and contributes SDL.  Every co-resident bundle lists this same module with the same config."""
+and contributes SDL (a field, and a scalar whose implementation the harness registers).  Every co-resident bundle lists
+this same module with the same config.  `bake` is a coroutine that yields to the event loop around its registration, so
+that concurrent cooks of several engines really interleave."""
+import asyncio
 
 
-def bake(schema_name, config):
+async def bake(schema_name, config):
     from tartiflette import Resolver
+    await asyncio.sleep(0)
 
     @Resolver("%s.vtModField" % config["root"], schema_name=schema_name)
     async def resolve_mod_field(parent, args, ctx, info):
         w = ctx["world"]
         w.marks.append("mod:" + str(w.label))
         return "from-module"
-    return "extend type %s { vtModField: String }" % config["root"]
+
+    @Resolver("%s.vtSeq" % config["root"], schema_name=schema_name)
+    async def resolve_seq(parent, args, ctx, info):
+        return "s"
+    await asyncio.sleep(0)
+    await asyncio.sleep(0)
+    return "scalar VtSeq\n\nextend type %s { vtModField: String vtSeq: VtSeq }" % config["root"]
